@@ -67,6 +67,13 @@ def label_desc(draw, labs, allow_absent=True):
         return {"k": "scalar", "v": v, "np": draw(st.booleans())}
     if k == "list":
         v = draw(st.lists(st.sampled_from(labs), min_size=0, max_size=4)) if n else []
+        if n >= 3 and draw(st.integers(0, 4)) == 0:
+            # labels whose stored positions span a contiguous range first..last without being that run (interior permuted or repeated)
+            m = draw(st.integers(3, min(4, n)))
+            start = draw(st.integers(0, n - m))
+            inner = list(range(start + 1, start + m - 1))
+            inner = inner[::-1] if len(inner) > 1 and draw(st.booleans()) else [draw(st.sampled_from([start, start + m - 1] + inner)) for _ in inner]
+            v = [labs[i] for i in [start] + inner + [start + m - 1]]
         return {"k": "list", "v": v, "as": draw(st.sampled_from(["list", "array"]))}
     if k == "mask":
         return {"k": "mask", "v": draw(st.lists(st.booleans(), min_size=n, max_size=n)), "as": draw(st.sampled_from(["array", "list"]))}
@@ -99,6 +106,13 @@ def pos_desc(draw, n):
             # the end or crossing zero: [-2, -1], [-1, 0, 1], [1, 2]
             start = draw(st.integers(-n, n - 2))
             v = list(range(start, min(start + draw(st.integers(2, 3)), n)))
+        elif n >= 3 and draw(st.integers(0, 4)) == 0:
+            # spans a contiguous range first..last without being the increasing run: interior permuted or repeated ([0, 2, 1, 3], [1, 1, 3])
+            m = draw(st.integers(3, min(4, n)))
+            start = draw(st.integers(0, n - m))
+            inner = list(range(start + 1, start + m - 1))
+            inner = list(draw(st.permutations(inner)))[::-1] if len(inner) > 1 and draw(st.booleans()) else [draw(st.sampled_from([start, start + m - 1] + inner)) for _ in inner]
+            v = [start] + inner + [start + m - 1]
         return {"k": "plist", "v": v, "as": draw(st.sampled_from(["list", "array"]))}
     if k == "pmask":
         return {"k": "pmask", "v": draw(st.lists(st.booleans(), min_size=n, max_size=n))}
